@@ -323,7 +323,10 @@ class TTNS(TTNBase):
         if other_attrs is None:
             other_attrs = []
         other_attrs = other_attrs + ["coeff"]
-        return super().load(basis, fname, other_attrs)
+        instance = super().load(basis, fname, other_attrs)
+        # ``np.load`` gives a 0-d array, which is mutable and shared by ``metacopy``. The prefactor is a scalar (see ``Mps.load``)
+        instance.coeff = instance.coeff.item()
+        return instance
 
     @classmethod
     def random(cls, basis: BasisTree, qntot, m_max, percent=1.0):
